@@ -109,6 +109,17 @@ class Ctx:
             self.violation("proof:%s" % failed,
                            "theorem %s of coq/%s/Props.v no longer checks" % (failed, self.pid),
                            {"kind": "proof", "theorem": failed, "log": r["log"][-3000:]}, nofail=True)
+        if r["ok"] and self.tier == "thorough" and self.replay is None:
+            # independent checker over Props.vo and all its dependencies; lists every axiom of every
+            # loaded library (a superset of what Print Assumptions reports per theorem)
+            k = coqrun.coqchk(self.pid)
+            self.coqchk = k
+            self.checker_cmd += " ; coqchk -o -Q coq HV HV.%s.Props" % self.pid
+            self.notes.append("coqchk: %s in %.0fs; axioms of all loaded libraries: %s" %
+                              ("ok" if k["ok"] else "FAILED", k["wall_s"], ", ".join(k["axioms"]) or "none"))
+            if not k["ok"]:
+                self.violation("proof:coqchk", "coqchk does not accept coq/%s/Props.vo" % self.pid,
+                               {"kind": "proof", "theorem": "coqchk", "log": k["log_tail"]}, nofail=True)
         return r
 
     # -- verdicts ---------------------------------------------------------------
